@@ -422,7 +422,22 @@ func runFlowCheckFn(P *Program, fc FlowCheck, fn *ssa.Function) flowResult {
 			}
 		}
 	}
-	if !anyThrough && fc.Mode != "absent-ok" {
+	if fc.Mode == "never" {
+		// "from" must never be followed by "until": there is nothing to pass through, but the "until"
+		// point must exist in the function (otherwise the obligation is about something else)
+		anyUntil := false
+		for _, b := range fn.Blocks {
+			for _, in := range b.Instrs {
+				if matchAny(in, fc.Until) {
+					anyUntil = true
+				}
+			}
+		}
+		if !anyUntil {
+			res.err = "contract-target-missing: no instruction matches until=" + strings.Join(fc.Until, ",")
+			return res
+		}
+	} else if !anyThrough && fc.Mode != "absent-ok" {
 		res.err = "contract-target-missing: no instruction matches through=" + strings.Join(fc.Through, ",")
 		return res
 	}
